@@ -612,7 +612,9 @@ def one_rewrite(rng, tn, hyper):
                                 absorb=gen.choice(rng, ["both", "left", "right"]),
                                 canonize_distance=int(gen.choice(rng, [0, 0, 1, 2])),
                                 **({"mode": gen.choice(rng, ["basic", "virtual-tree"])}
-                                   if rng.random() < 0.3 else {}))
+                                   if rng.random() < 0.3 else
+                                   {"mode": "basic", "reduced": gen.choice(rng, [False, "lazy", "left", "right"])}
+                                   if rng.random() < 0.5 else {}))
             return name, tn
         if name == "insert_gauge":
             d = tn.ind_size(ix)
@@ -634,8 +636,8 @@ def one_rewrite(rng, tn, hyper):
                 tcm.tensor_make_single_bond(t1, t2)
             tcm.tensor_canonize_bond(t1, t2, absorb=gen.choice(rng, ["right", "left", "both"]))
         elif f == "compress":
-            tcm.tensor_compress_bond(t1, t2, max_bond=None, cutoff=0.0,
-                                     reduced=gen.choice(rng, [True, False, "left", "right"]),
+            tcm.tensor_compress_bond(t1, t2, max_bond=gen.choice(rng, [None, None, 64]), cutoff=0.0,
+                                     reduced=gen.choice(rng, [True, False, False, "lazy", "left", "right"]),
                                      absorb=gen.choice(rng, ["both", "left", "right"]))
         elif f == "balance":
             if len(t1.bonds(t2)) != 1:
@@ -676,6 +678,8 @@ def one_rewrite(rng, tn, hyper):
               "mode": gen.choice(rng, ["auto", "basic", "virtual-tree"])}
         if rng.random() < 0.3:
             kw["tree_gauge_distance"] = int(rng.integers(0, 3))
+        elif rng.random() < 0.4:
+            kw = {"canonize": False, "mode": "basic", "reduced": gen.choice(rng, [False, "lazy"])}
         r = tn.compress_all(max_bond=None, cutoff=0.0, inplace=inplace, **kw)
     elif name == "compress_all_simple":
         r = tn.compress_all_simple(max_bond=None, cutoff=0.0, max_iterations=3, inplace=inplace)
